@@ -62,6 +62,10 @@ func c05Shapes() []struct {
 		{"zero-top-nibble", [4]*big.Int{hexInt("0a3c5e7f9b1d2f4061"), hexInt("0190aabbccddeeff00112233"), hexInt("0f00000000000001"), hexInt("05a5a5a5a5")}},
 		{"single-digit", [4]*big.Int{big.NewInt(5), big.NewInt(6), big.NewInt(7), big.NewInt(9)}},
 		{"high-bit", [4]*big.Int{hexInt("ff3c5e7f9b1d2f4061aabb"), hexInt("80000000000000000001"), hexInt("c0ffee00c0ffee"), hexInt("fedcba9876543210")}},
+		{"leaf-zero", [4]*big.Int{big.NewInt(0), big.NewInt(6), big.NewInt(7), big.NewInt(9)}},
+		{"inter-zero", [4]*big.Int{big.NewInt(5), big.NewInt(0), big.NewInt(7), big.NewInt(9)}},
+		{"tcbinfo-signer-zero", [4]*big.Int{big.NewInt(5), big.NewInt(6), big.NewInt(0), big.NewInt(9)}},
+		{"qeidentity-signer-zero", [4]*big.Int{big.NewInt(5), big.NewInt(6), big.NewInt(7), big.NewInt(0)}},
 		{"20-octets", [4]*big.Int{hexInt("7fffffffffffffffffffffffffffffffffffff01"), hexInt("7fffffffffffffffffffffffffffffffffffff02"), hexInt("100000000000000000000000000000000000ab03"), hexInt("0123456789abcdef0123456789abcdef01234504")}},
 	}
 }
@@ -109,7 +113,13 @@ func c05Env(shape string, serials [4]*big.Int) *c05env {
 		return out
 	}
 	big20 := new(big.Int).Lsh(big.NewInt(0x7f), 152)
-	pm := func(v *big.Int, d int64) *big.Int { return new(big.Int).Add(v, big.NewInt(d)) }
+	pm := func(v *big.Int, d int64) *big.Int {
+		x := new(big.Int).Add(v, big.NewInt(d))
+		if x.Sign() < 0 { // next to serial 0: stay among the serials a CRL can carry
+			x = new(big.Int).Add(v, big.NewInt(100))
+		}
+		return x
+	}
 	type rset = c05rset
 	pckSets := []rset{{"none", nil, true}, {"unrelated", []*big.Int{unrelated}, true}, {"leaf-1", []*big.Int{pm(leafSN, -1)}, true}, {"leaf+1", []*big.Int{pm(leafSN, 1)}, true},
 		{"20-byte", []*big.Int{big20}, true}, {"100-unrelated", many(nil), true}, {"cross:inter+tcb-signers", []*big.Int{interSN, tcbSN, qeSN}, true},
